@@ -355,7 +355,7 @@ fn finish(rng: &mut Rng, mut st: Start) -> Option<Start> {
     Some(st)
 }
 
-pub const N_SCEN: usize = 21;
+pub const N_SCEN: usize = 22;
 pub const SCEN_NAMES: [&str; N_SCEN] = [
     "ep_rank_exposure",
     "ep_after_interposing_push",
@@ -378,6 +378,7 @@ pub const SCEN_NAMES: [&str; N_SCEN] = [
     "only_move_is_ep",
     "ep_interposes_check",
     "special_move_ends_game",
+    "double_push_ends_game_illegal_ep",
 ];
 
 /// Try to produce an instance of scenario `id`; None if this draw did not validate.
@@ -1187,8 +1188,88 @@ pub fn scenario(rng: &mut Rng, id: usize) -> Option<Start> {
             finish(rng, Start::plain(p, tag))
         }
         20 => special_move_ends_game(rng).and_then(|st| finish(rng, st)),
+        21 => illegal_ep_ends_game(rng).and_then(|st| finish(rng, st)),
         _ => None,
     }
+}
+
+/// Search-based workload: Black's double step ends the game (stalemate, or mate by a discovered or
+/// direct check) although White still has a pseudo-legal en-passant capture: that capture is illegal
+/// because capturer and captured pawn together shield the white king from a rook or queen on their
+/// rank (neither pawn is "pinned" in the ordinary sense), or because the capturer is pinned.
+fn illegal_ep_ends_game(rng: &mut Rng) -> Option<Start> {
+    let tag = SCEN_NAMES[21];
+    for _ in 0..400 {
+        let mut p = RPos::empty();
+        let kf = rng.range(0, 2) as i8;
+        let a = kf + 1 + rng.below(2) as i8;
+        let b = a + 1;
+        let (wf, x) = if rng.chance(1, 2) { (a, b) } else { (b, a) };
+        let rf = b + 1 + rng.below((7 - b) as usize) as i8;
+        if rf > 7 {
+            continue;
+        }
+        let ordinary_pin = rng.chance(1, 4);
+        p.sq[sqm(kf, 4) as usize] = pc(K, WHITE);
+        p.sq[sqm(wf, 4) as usize] = pc(P, WHITE);
+        p.sq[sqm(x, 6) as usize] = pc(P, BLACK);
+        let mut reserved = bit(sqm(x, 6)) | bit(sqm(x, 5)) | bit(sqm(x, 4));
+        for f in kf..=rf {
+            reserved |= bit(sqm(f, 4));
+        }
+        if ordinary_pin {
+            // the capturer is pinned on its file instead: king below it, rook above
+            p.sq[sqm(kf, 4) as usize] = 0;
+            let kr = rng.range(1, 3) as i8;
+            p.sq[sqm(wf, kr) as usize] = pc(K, WHITE);
+            p.sq[sqm(wf, rng.range(5, 7) as i8) as usize] = pc(*rng.pick(&[R, Q]), BLACK);
+            for r in 0..8 {
+                reserved |= bit(sqm(wf, r));
+            }
+        } else {
+            p.sq[sqm(rf, 4) as usize] = pc(*rng.pick(&[R, Q]), BLACK);
+            // the white pawn must not be able to step forward
+            p.sq[sqm(wf, 5) as usize] = pc(*rng.pick(&[P, N, B]), BLACK);
+        }
+        reserved |= bit(sqm(wf, 5));
+        let k = p.king_sq(WHITE)?;
+        let (kx, ky) = fr(k);
+        // black men around the white king
+        for _ in 0..rng.range(3, 7) {
+            let kd = *rng.pick(&[Q, R, B, N, P, N, B, R]);
+            for _ in 0..10 {
+                if let Some(s) = mk(kx + rng.range(0, 6) as i8 - 3, ky + rng.range(0, 6) as i8 - 3) {
+                    if p.sq[s as usize] == 0 && reserved & bit(s) == 0 && !(kd == P && (s >> 3 == 0 || s >> 3 == 7)) && p.men(BLACK) < 15 {
+                        p.sq[s as usize] = pc(kd, BLACK);
+                        break;
+                    }
+                }
+            }
+        }
+        // now and then a blocked white pawn elsewhere
+        if rng.chance(1, 3) {
+            let f = rng.range(0, 7) as i8;
+            let r = rng.range(1, 5) as i8;
+            if p.sq[sqm(f, r) as usize] == 0 && p.sq[sqm(f, r + 1) as usize] == 0 && reserved & (bit(sqm(f, r)) | bit(sqm(f, r + 1))) == 0 {
+                p.sq[sqm(f, r) as usize] = pc(P, WHITE);
+                p.sq[sqm(f, r + 1) as usize] = pc(*rng.pick(&[P, N]), BLACK);
+            }
+        }
+        if !place_king_somewhere(rng, &mut p, BLACK, reserved) {
+            continue;
+        }
+        p.stm = BLACK;
+        let push = RMove::new(sqm(x, 6), sqm(x, 4), 0);
+        if !p.valid() || !p.is_legal(push) {
+            continue;
+        }
+        let after = p.make(push);
+        if after.has_legal_move() || !after.pseudo().iter().any(|m| after.is_ep_capture(*m)) {
+            continue;
+        }
+        return Some(Start { pos: p, prelude: vec![push], tag });
+    }
+    None
 }
 
 /// Search-based workload: a *special* move (en-passant capture, castling, promotion) by White ends the
